@@ -1,4 +1,5 @@
 import HavocVerif.Lemmas.Path
+import HavocVerif.Model.Locks
 import HavocVerif.Model.Loot
 /-
   C07 — Loot stays inside the agent's loot folder and equals what was sent.
@@ -107,5 +108,12 @@ example : insideDir (asciiBytes "/l/a/id/Download/sub/../x") (asciiBytes "/l/a/i
 example : insideDir (asciiBytes "/l/a/id/Download/../../other/Download") (asciiBytes "/l/a/id/Download") = false := by decide
 example : validAgentId (asciiBytes "0000beef") = true ∧ validAgentId (asciiBytes "../x") = false
     ∧ validAgentId (asciiBytes "..") = false := by decide
+
+/-- regenerated (`Gen.TableWrites`): every assignment to these tables anywhere in the teamserver is an append at the end,
+    a delete of one index, the hand-out split, `nil` / an empty literal, or a slice built up freshly in a local - never a
+    re-slice to length 0 or a filter in place, whose later appends would overwrite what an earlier reader still holds.
+    The models' immutable lists are faithful to the Go slices only under this fact. -/
+theorem downloads_writes_value_like :
+    aliasingWrites ["Downloads"] = [] ∧ writtenTables ["Downloads"] = ["Downloads"] ∧ Gen.TableWrites.reslicesToZero = [] := by decide
 
 end Havoc.C07
